@@ -575,14 +575,17 @@ def case_rays(ctx, cfg):
                     if e is not None:
                         ctx.fail(f"ray-{tag}:{rel[0]}:{type(e).__name__}", "intersect", inputs, [], e)
                         return
-                    if rel[0] == "parallel" and len(r) != 0:
-                        # a ray and a parallel LINE share the point at infinity of their direction, which is the ray's
-                        # own endpoint: returning it is not spurious; anything else is
-                        if tag == "line" and len(r) == 1 and proj_eq(r[0].array, np.array([d[0], d[1], 0.0]), 1e-9):
+                    if rel[0] == "parallel":
+                        # a ray and a parallel LINE share exactly one point: the point at infinity of their direction,
+                        # which is the ray's own endpoint; a finite parallel segment shares nothing with the ray
+                        if tag == "line":
                             ctx.tally("parallel:common-point-at-infinity")
-                            continue
-                        ctx.fail(f"ray-{tag}:parallel:spurious-point", "intersect", inputs, [], as_arrays(r))
-                        return
+                            if len(r) != 1 or not proj_eq(r[0].array, np.array([d[0], d[1], 0.0]), 1e-9):
+                                ctx.fail("ray-line:parallel:common-point-at-infinity", "intersect", inputs, [[d[0], d[1], 0]], as_arrays(r))
+                                return
+                        elif len(r) != 0:
+                            ctx.fail(f"ray-{tag}:parallel:spurious-point", "intersect", inputs, [], as_arrays(r))
+                            return
                 continue
             _, X_, t, s_ = rel
             want_l = [X_] if t >= 0 else []
